@@ -237,11 +237,28 @@ pub(crate) fn apply_rules_on_link(
         // items in `queue` using rule CREATE, DELETE, MODIFY, ALLOW, REQUIRE and DISALLOW.
         // besides, use MATCH rule to filter other items.
         for rule in rules {
-            let filtered: BTreeSet<_> = queue
-                .iter()
-                .filter(|p| p.matches(rule.pattern().value()).unwrap_or(false))
-                .cloned()
-                .collect();
+            let mut filtered = BTreeSet::new();
+            for path in &queue {
+                match path.matches(rule.pattern().value()) {
+                    Ok(true) => {
+                        filtered.insert(path.clone());
+                    }
+                    Ok(false) => {}
+                    // a DISALLOW rule that cannot be evaluated must not be
+                    // skipped silently
+                    Err(e) => {
+                        if let ArtifactRule::Disallow(_) = rule {
+                            return Err(Error::ArtifactRuleError(format!(
+                                "artifact verification failed for {:?} in {}: DISALLOW pattern {:?} can not be interpreted: {}",
+                                verification_data.src_type,
+                                item_name,
+                                rule.pattern(),
+                                e
+                            )));
+                        }
+                    }
+                }
+            }
             let consumed = match rule {
                 ArtifactRule::Create(_) => {
                     filtered.intersection(&created).cloned().collect()
